@@ -27,10 +27,15 @@ import BpProofs.Props.C06
         - flat (as above),
         - message-typed: singular, proto3-optional, oneof member or repeated sub-messages of
           any class of the schema, to any depth, including recursive classes,
-        - Timestamp / Duration (singular, optional or oneof member; datetime / timedelta in
-          the protobuf-valid range),
+        - Timestamp / Duration (singular, optional, oneof member or REPEATED; datetime /
+          timedelta in the protobuf-valid range; BpProofs/RtTimes.lean for the repeated
+          ones: each item is its own record `tag, length, Timestamp`, written with
+          `serialize_empty=True`, so the epoch is `tag 00` and the `or b"\n\x00"`
+          fallback of the encoder is never reached),
         - wrappers (`Optional[scalar]`, singular or oneof member),
-        - maps with integer / bool / string keys and scalar or message values,
+        - maps with integer / bool / string keys and scalar, message or Timestamp / Duration
+          values (for the latter the epoch / the zero duration writes no value record and is
+          read back as the default of the entry's value field, which is that same value),
       by strong induction on the nesting fuel of the decoder (= the length of the input; the
       payload of a nested record is strictly shorter than the record). The decoded value is
       related to the original by `ValEqv` (BpProofs/Eqv.lean): same class, oneof selection
@@ -39,10 +44,9 @@ import BpProofs.Props.C06
       identifies exactly three things Python's `==` identifies too: `-0.0` with `+0.0`
       inside a wrapper (the wrapper class has implicit presence), and a map VALUE message
       that encodes to nothing with the fresh instance of its class.
-  MISSING (named, not proved): repeated Timestamp / Duration / wrapper fields, maps whose
-    values are Timestamp / Duration; that every `MsgOk` value CAN be encoded (`dumpVal`
-    succeeds — the theorem takes the encoding as a hypothesis; for scalars this is
-    `scalar_encodable`). Those are covered by the differential correspondence and the
+  MISSING (named, not proved): repeated wrapper fields; that every `MsgOk` value CAN be
+    encoded (`dumpVal` succeeds — the theorem takes the encoding as a hypothesis; for scalars
+    this is `scalar_encodable`). Those are covered by the differential correspondence and the
     oracle of this check.
 -/
 namespace Bp.C01
@@ -193,8 +197,8 @@ theorem roundtrip_flat_partial (S : Schema) (c : Nat) (d : MsgD) (hd : S[c]? = s
     field numbers, the oneof invariant of C07, every slot well-typed for its field (`SlotOk`:
     flat as in `roundtrip_flat_partial`; unset / None / a well-typed message / a list of
     well-typed messages for a message-typed field; an in-range datetime / timedelta; a
-    wrapped scalar; a dict with pairwise different well-typed keys and well-typed scalar or
-    message values), unknown fields that are raw records the class does not know. -/
+    wrapped scalar; a list of in-range datetimes / timedeltas; a dict with pairwise different
+    well-typed keys and well-typed scalar, message or datetime / timedelta values), unknown fields that are raw records the class does not know. -/
 theorem roundtrip_nested_partial (S : Schema) (c : Nat) (d : MsgD) (hd : S[c]? = some d)
     (sl : List Val) (ow : Bool) (unk : Bytes) (cur : List (Option Nat))
     (hm : MsgOk S (.msg c sl ow unk cur))
